@@ -74,7 +74,7 @@ func classify(s *Spec, t *Taint, inMark bool) {
 		Sf(2)
 	case "domnew", "goerr", "pkgnew", "grpcstatus", "gogostatus", "unknownnet", "uleafptr", "uleafval", "uleafnc", "uleaffmtold", "rleaf", "risleaf", "uoptleaf",
 		"hint", "detail", "handledmsg", "goerrorf", "goerrorfsuffix", "pkgmsg", "pkgwrap", "uwrapnofmt", "uwrapcause", "uwrapsuffix", "uwrapoverride", "uopt", "uwrapfmtold", "rwrapfull", "uwrapasself", "uleafas",
-		"goerrorfmulti", "umulti", "rmulti", "umulticause":
+		"goerrorfmulti", "umulti", "rmulti", "umulticause", "umulticauser":
 		U(0)
 	case "addrerr", "dnsleaf", "dnswrap", "uleafformatter", "uwrapformatter", "uhinter":
 		U(0)
